@@ -7,7 +7,7 @@ import Influx.Lemmas.TenantInv
 import Influx.Spec.C30
 
 namespace Influx.Tenant
-open KV
+open KV Spec.C30
 
 theorem isSp_eq (c : Char) : Spec.C30.isSp c = isSpace c := by
   have e (d : Char) : (c = d) ↔ c.toNat = d.toNat := Char.toNat_inj.symm
@@ -376,6 +376,252 @@ theorem step_system {s : State} (h : Inv s) (op : Op) {id : Nat} {b : BucketRec}
 /-- lookups leave the state alone -/
 theorem step_lookup (s : State) (op : Op) (h : Spec.C30.isLookup op = true) : (step s op).1 = s := by
   cases op <;> simp [Spec.C30.isLookup] at h <;> rfl
+
+
+/-! ### from the invariant to the dump checks -/
+
+theorem uniqueBy_of_pairwise {α β : Type} [DecidableEq β] (f : α → β) (l : List α)
+    (h : l.Pairwise (fun a b => f a ≠ f b)) : uniqueBy f l = true := by
+  induction l with
+  | nil => rfl
+  | cons x xs ih =>
+    rw [List.pairwise_cons] at h
+    simp only [uniqueBy, Bool.and_eq_true, List.all_eq_true, decide_eq_true_eq]
+    exact ⟨fun y hy => h.1 y hy, ih h.2⟩
+
+/-- records of a well-formed bucket whose index agrees carry pairwise different keys -/
+theorem pairwise_keys {κ ρ : Type} [DecidableEq κ] {key : ρ → κ} {recs : List (Nat × ρ)} {idx : List (κ × Nat)}
+    (h : IdxOK key recs idx) (wf : WF recs) : recs.Pairwise (fun a b => key a.2 ≠ key b.2) := by
+  have nd : recs.Pairwise (fun a b => a.1 ≠ b.1) := by
+    have := wf; unfold WF at this
+    rw [List.Nodup, List.pairwise_map] at this; exact this
+  refine List.Pairwise.imp_of_mem ?_ nd
+  intro a b ha hb hne hk
+  exact hne (h.unique (get_of_mem wf (k := a.1) (v := a.2) ha) (get_of_mem wf (k := b.1) (v := b.2) hb) hk)
+
+theorem namesUnique_dumpOf {s : State} (h : Inv s) : namesUnique (dumpOf s) = true := by
+  simp only [namesUnique, dumpOf, Bool.and_eq_true]
+  refine ⟨⟨?_, ?_⟩, ?_⟩
+  · apply uniqueBy_of_pairwise
+    rw [List.pairwise_map]
+    refine (pairwise_keys h.org h.wfOrgs).imp ?_
+    intro a b hne c; exact hne (by simpa using congrArg orgKey c)
+  · apply uniqueBy_of_pairwise
+    rw [List.pairwise_map]
+    exact (pairwise_keys h.user h.wfUsers).imp (fun hne c => hne c)
+  · apply uniqueBy_of_pairwise
+    rw [List.pairwise_map]
+    exact (pairwise_keys h.bkt h.wfBkts).imp (fun hne c => hne c)
+
+theorem keysAgree_dumpOf (s : State) : keysAgree (dumpOf s) = true := by
+  simp [keysAgree, dumpOf]
+
+theorem indexesAgree_dumpOf {s : State} (h : Inv s) : indexesAgree (dumpOf s) = true := by
+  simp only [indexesAgree, dumpOf, Bool.and_eq_true, List.all_eq_true, List.any_eq_true, List.mem_map,
+    decide_eq_true_eq, Prod.exists, Prod.forall]
+  refine ⟨⟨⟨⟨⟨?_, ?_⟩, ?_⟩, ?_⟩, ?_⟩, ?_⟩
+  · intro k id hm
+    obtain ⟨n, hn, hk⟩ := h.org.sound k id (get_of_mem h.wfOrgIdx hm)
+    exact ⟨id, id, n, ⟨id, n, mem_of_get hn, rfl⟩, rfl, by rw [trim_eq]; exact hk⟩
+  · rintro k i n ⟨k', n', hm, he⟩
+    simp only [Prod.mk.injEq] at he
+    obtain ⟨rfl, rfl, rfl⟩ := he
+    exact ⟨_, _, mem_of_get (h.org.complete k' n' (get_of_mem h.wfOrgs hm)), by rw [trim_eq], rfl⟩
+  · intro k id hm
+    obtain ⟨n, hn, hk⟩ := h.user.sound k id (get_of_mem h.wfUserIdx hm)
+    exact ⟨id, id, n, ⟨id, n, mem_of_get hn, rfl⟩, rfl, hk⟩
+  · rintro k i n ⟨k', n', hm, he⟩
+    simp only [Prod.mk.injEq] at he
+    obtain ⟨rfl, rfl, rfl⟩ := he
+    exact ⟨_, _, mem_of_get (h.user.complete k' n' (get_of_mem h.wfUsers hm)), rfl, rfl⟩
+  · intro o n id hm
+    obtain ⟨b, hb, hk⟩ := h.bkt.sound (o, n) id (get_of_mem h.wfBktIdx hm)
+    simp only [Prod.mk.injEq] at hk
+    exact ⟨id, id, b, ⟨id, b, mem_of_get hb, rfl⟩, ⟨rfl, hk.1⟩, hk.2⟩
+  · rintro k i b ⟨k', b', hm, he⟩
+    simp only [Prod.mk.injEq] at he
+    obtain ⟨rfl, rfl, rfl⟩ := he
+    exact ⟨_, _, _, mem_of_get (h.bkt.complete k' b' (get_of_mem h.wfBkts hm)), rfl, rfl⟩
+
+theorem dumpOK_dumpOf {s : State} (h : Inv s) : dumpOK (dumpOf s) = true := by
+  simp [dumpOK, keysAgree_dumpOf, namesUnique_dumpOf h, indexesAgree_dumpOf h]
+
+
+/-! ### lookups through the API agree with the dumped records -/
+
+theorem lookupOK_step {s : State} (h : Inv s) (op : Op) : lookupOK (dumpOf s) op (step s op).2 = true := by
+  cases op with
+  | fo n =>
+    simp only [step, findOrg]
+    cases hi : get s.orgIdx (orgKey n) with
+    | none =>
+      simp only [lookupOK, dumpOf, List.all_eq_true, List.mem_map, decide_eq_true_eq, Prod.exists]
+      rintro e ⟨k, n', hm, rfl⟩ c
+      simp only at c; subst c
+      have := h.org.complete k n' (get_of_mem h.wfOrgs hm)
+      rw [hi] at this; cases this
+    | some id =>
+      obtain ⟨nm, hn, hk⟩ := h.org.sound _ id hi
+      simp only [hn, lookupOK, dumpOf, Bool.and_eq_true, List.any_eq_true, List.mem_map, decide_eq_true_eq,
+        Prod.exists]
+      exact ⟨⟨id, id, nm, ⟨id, nm, mem_of_get hn, rfl⟩, rfl, rfl⟩, by rw [trim_eq, trim_eq]; exact hk⟩
+  | fu n =>
+    simp only [step, findUser]
+    cases hi : get s.userIdx n with
+    | none =>
+      simp only [lookupOK, dumpOf, List.all_eq_true, List.mem_map, decide_eq_true_eq, Prod.exists]
+      rintro e ⟨k, n', hm, rfl⟩ c
+      simp only at c; subst c
+      have := h.user.complete k n' (get_of_mem h.wfUsers hm)
+      rw [hi] at this; cases this
+    | some id =>
+      obtain ⟨nm, hn, hk⟩ := h.user.sound _ id hi
+      simp only [hn, lookupOK, dumpOf, Bool.and_eq_true, List.any_eq_true, List.mem_map, decide_eq_true_eq,
+        Prod.exists]
+      exact ⟨⟨id, id, nm, ⟨id, nm, mem_of_get hn, rfl⟩, rfl, rfl⟩, hk⟩
+  | fb o n =>
+    simp only [step, findBucket]
+    by_cases h0 : o = 0
+    · simp [lookupOK, h0]
+    · simp only [h0, ↓reduceIte]
+      cases hi : get s.bktIdx (o, n) with
+      | none =>
+        simp only [lookupOK, dumpOf, List.all_eq_true, List.mem_map, Prod.exists]
+        rintro e ⟨k, b, hm, rfl⟩
+        simp only [Bool.not_eq_eq_eq_not, Bool.not_true, Bool.and_eq_false_imp, decide_eq_true_eq,
+          decide_eq_false_iff_not]
+        intro ho hn
+        have := h.bkt.complete k b (get_of_mem h.wfBkts hm)
+        simp only [ho, hn] at this
+        rw [hi] at this; cases this
+      | some id =>
+        obtain ⟨b, hb, hk⟩ := h.bkt.sound _ id hi
+        simp only [Prod.mk.injEq] at hk
+        simp only [hb, lookupOK, dumpOf, Bool.and_eq_true, List.any_eq_true, List.mem_map, decide_eq_true_eq,
+          Prod.exists]
+        exact ⟨⟨⟨id, id, b, ⟨id, b, mem_of_get hb, rfl⟩, ⟨rfl, rfl⟩, rfl⟩, hk.1⟩, hk.2⟩
+  | _ => simp [lookupOK]
+
+
+/-! ### the scan of Spec.C30 over a trace of the model -/
+
+/-- no bucket of `org`, no membership on `org` -/
+def Casc (s : State) (org : Nat) : Prop :=
+  (∀ id b, get s.bkts id = some b → b.org ≠ org) ∧ (∀ k, k.1 = org → get s.urms k = none)
+
+theorem cascaded_dumpOf {s : State} (h : Inv s) {org : Nat} (c : Casc s org) : cascaded (dumpOf s) org = true := by
+  simp only [cascaded, dumpOf, Bool.and_eq_true, List.all_eq_true, List.mem_map, decide_eq_true_eq, Prod.exists]
+  constructor
+  · rintro e ⟨k, b, hm, rfl⟩
+    exact c.1 k b (get_of_mem h.wfBkts hm)
+  · rintro e ⟨k1, k2, r, hm, rfl⟩
+    have : k1 ≠ org := by
+      intro e
+      have := c.2 (k1, k2) e
+      rw [get_of_mem h.wfUrms hm] at this; cases this
+    exact ⟨this, this⟩
+
+/-- system buckets of `sL` survive into `s` unless their organization was deleted in between -/
+def Kept (sL s : State) (since : List (Op × Ans)) : Prop :=
+  ∀ id b, get sL.bkts id = some b → b.sys = true → since.any (isDeleteOrgOf b.org) = false →
+    get s.bkts id = some b
+
+theorem systemKept_dumpOf {sL s : State} (hL : Inv sL) {since : List (Op × Ans)} (k : Kept sL s since) :
+    systemKept (dumpOf sL) (dumpOf s) since = true := by
+  simp only [systemKept, dumpOf, List.all_eq_true, List.mem_map, Prod.exists]
+  rintro e ⟨id, b, hm, rfl⟩
+  simp only [Bool.or_eq_true, Bool.not_eq_eq_eq_not, Bool.not_true, List.contains_eq_mem, List.mem_map,
+    Prod.exists, decide_eq_true_eq]
+  by_cases hs : b.sys = true
+  · by_cases ha : since.any (isDeleteOrgOf b.org) = true
+    · exact Or.inl (Or.inr ha)
+    · refine Or.inr ⟨id, b, mem_of_get (k id b (get_of_mem hL.wfBkts hm) hs (by simpa using ha)), rfl⟩
+  · exact Or.inl (Or.inl (by simpa using hs))
+
+structure Rel (sc : Scan) (s : State) : Prop where
+  ok : sc.ok = true
+  inv : Inv s
+  casc : ∀ id x rest, sc.since = (.dO id, .okId x) :: rest → Casc s id
+  last : ∀ d, sc.last = some d → ∃ sL, d = dumpOf sL ∧ Inv sL ∧ Kept sL s sc.since ∧
+    (sc.since.all (fun p => isLookup p.1) = true → s = sL)
+
+theorem rel_init : Rel {} init :=
+  ⟨rfl, init_inv, fun _ _ _ h => (by simp at h), fun _ h => (by simp at h)⟩
+
+theorem scanStep_dump {sc : Scan} {s : State} (r : Rel sc s) :
+    scanStep sc (.dump, .dump (dumpOf s)) = { sc with last := some (dumpOf s), since := [] } := by
+  have e1 : checkDump sc (dumpOf s) = sc := by simp [checkDump, dumpOK_dumpOf r.inv]
+  have e2 : checkCascade sc (dumpOf s) = sc := by
+    unfold checkCascade
+    split
+    · rename_i id x rest he
+      rw [cascaded_dumpOf r.inv (r.casc id x rest he)]; rfl
+    · rfl
+  have e3 : checkSystem sc (dumpOf s) = sc := by
+    unfold checkSystem
+    split
+    · rename_i b hb
+      obtain ⟨sL, rfl, hL, hk, _⟩ := r.last b hb
+      rw [systemKept_dumpOf hL hk]; rfl
+    · rfl
+  simp only [scanStep, e1, e2, e3]
+
+theorem scanStep_other (sc : Scan) (op : Op) (a : Ans) (hop : op ≠ .dump) :
+    scanStep sc (op, a) = { checkLookup sc op a with since := (op, a) :: sc.since } := by
+  cases op <;> first | rfl | exact absurd rfl hop
+
+theorem step_ans_dO {s : State} {id x : Nat} (h : (step s (.dO id)).2 = .okId x) :
+    ∃ r, deleteOrganization s id = ((step s (.dO id)).1, .ok r) := by
+  simp only [step] at h ⊢
+  cases e : (deleteOrganization s id).2 with
+  | error er => rw [e] at h; cases h
+  | ok r => exact ⟨r, by rw [← e]⟩
+
+theorem rel_step {sc : Scan} {s : State} (r : Rel sc s) (op : Op) :
+    Rel (scanStep sc (op, (step s op).2)) (step s op).1 := by
+  by_cases hop : op = .dump
+  · subst hop
+    show Rel (scanStep sc (.dump, .dump (dumpOf s))) s
+    rw [scanStep_dump r]
+    refine ⟨r.ok, r.inv, fun _ _ _ h => (by simp at h), ?_⟩
+    intro d hd
+    simp only [Option.some.injEq] at hd
+    exact ⟨s, hd.symm, r.inv, fun id b hb _ _ => hb, fun _ => rfl⟩
+  · rw [scanStep_other sc op _ hop]
+    have inner : checkLookup sc op (step s op).2 = sc := by
+      unfold checkLookup
+      split
+      · rename_i d hd
+        obtain ⟨sL, rfl, _, _, hl⟩ := r.last d hd
+        by_cases ha : sc.since.all (fun p => isLookup p.1) = true
+        · have := hl ha; subst this
+          simp [lookupOK_step r.inv op]
+        · simp [ha]
+      · rfl
+    rw [inner]
+    refine ⟨r.ok, step_inv r.inv op, ?_, ?_⟩
+    · intro id x rest he
+      simp only [List.cons.injEq, Prod.mk.injEq] at he
+      obtain ⟨⟨rfl, ha⟩, _⟩ := he
+      obtain ⟨rr, hr⟩ := step_ans_dO ha
+      exact deleteOrganization_cascade r.inv id hr
+    · intro d hd
+      obtain ⟨sL, rfl, hL, hk, hl⟩ := r.last d hd
+      refine ⟨sL, rfl, hL, ?_, ?_⟩
+      · intro id b hb hs hany
+        simp only [List.any_cons, Bool.or_eq_false_iff] at hany
+        exact step_system r.inv op (hk id b hb hs hany.2) hs hany.1
+      · intro hall
+        simp only [List.all_cons, Bool.and_eq_true] at hall
+        rw [step_lookup s op hall.1]; exact hl hall.2
+
+theorem scan_run (ops : List Op) {sc : Scan} {s : State} (r : Rel sc s) :
+    ((run s ops).foldl scanStep sc).ok = true := by
+  induction ops generalizing sc s with
+  | nil => exact r.ok
+  | cons op ops ih =>
+    simp only [run, List.foldl_cons]
+    exact ih (rel_step r op)
 
 
 end Influx.Tenant
